@@ -106,6 +106,7 @@ def build(prog):
         a = np.array(ms, dtype=float)
         md[B.vars[v]] = NormalMessage(a[:, 0].reshape(B.shape[v]), a[:, 1].reshape(B.shape[v]))
     B.mf0 = EPMeanField.from_approx_dists(B.graph, md)
+    B.md = md
     B.scale = {}
     return B
 
@@ -415,6 +416,14 @@ def _plate_case(ctx, prog, case, ops, n_ops, label):
                     for f, fl in ep.factor_mean_field.items()})
                 deep[index] = sub
                 r["inplace"] = state_of(B, deep)
+                if ep is B.mf0:
+                    # the same on a mean field as the library itself builds it (from_approx_dists): every factor
+                    # holds its own message, an in-place update of one factor is not seen by the others
+                    lib = EPMeanField.from_approx_dists(B.graph, {v: NormalMessage(np.array(m.mean, dtype=float), np.array(m.sigma, dtype=float))
+                                                                  for v, m in B.md.items()})
+                    lib[index] = sub
+                    r["inplace_lib"] = state_of(B, lib)
+                    ctx.hit("plate:in-place-on-library-built-field")
             except Exception as e:  # noqa
                 ctx.hit("plate:in-place-raised:" + type(e).__name__)
             rec.append(r)
@@ -505,6 +514,9 @@ def _plate_case(ctx, prog, case, ops, n_ops, label):
             if not same_arr(B, v, garr, want):
                 ctx.fail("C18-plate-merged-global", "after a merge the global approximation is not the product of all factor messages", case,
                          {"op": kk, "var": v})
+        if "inplace_lib" in r and {f: bits(x) for f, x in r["inplace_lib"].items()} != {f: bits(x) for f, x in r["merged"].items()}:
+            ctx.fail("C18-plate-in-place-differs", "approx[index] = subset in place on a mean field built by from_approx_dists and "
+                     "approx.merge(index, subset) give different messages (a factor's update shows in another factor's message)", case, {"op": kk})
         if "inplace" in r and {f: bits(x) for f, x in r["inplace"].items()} != {f: bits(x) for f, x in r["merged"].items()}:
             ctx.fail("C18-plate-in-place-differs", "approx[index] = subset (in place) and approx.merge(index, subset) give different messages", case,
                      {"op": kk})
